@@ -3,7 +3,7 @@ EXTENDS Builder, TLC, Json
 
 CONSTANTS MaxCalls, SizeChoices, ValueLists, Progs
 
-VL == {<<7>>, <<7, 8, 9>>}
+VL == {<<7>>, <<8, 9>>}
 VL0 == {<<>>}
 PG0 == {<<>>}
 PG == {<<1, 2>>}
